@@ -75,7 +75,7 @@ func (m *model) elemModel(typeName string) (*model, error) {
 	if err != nil {
 		return nil, err
 	}
-	em.keyEnc, em.flattenAnon = m.keyEnc, m.flattenAnon
+	em.keyEnc, em.flattenAnon, em.recaseAll = m.keyEnc, m.flattenAnon, m.recaseAll
 	return em, nil
 }
 
